@@ -133,7 +133,7 @@ impl<'a> G<'a> {
         let groups = self.r.range(1, 3);
         for gi in 0..groups {
             let last = gi + 1 == groups;
-            match self.r.below(5) {
+            match self.r.below(6) {
                 0 | 1 => { let n = self.name(); let (t, v, l) = self.gen(depth - 1, greedy && last); tf.push((n.clone(), t)); vf.push((n, v)); len += l; }
                 2 => {
                     // size-dependent field: len field, optionally something in between, then the sized field
@@ -160,6 +160,27 @@ impl<'a> G<'a> {
                     // when the template's own flag value (0) skips too the template default stays; the
                     // value side keeps the template for a skipped field
                     if skipped { tf.push((sn.clone(), t.clone())); vf.push((sn, t)); } else { tf.push((sn.clone(), t)); vf.push((sn, val)); len += l; }
+                }
+                5 => {
+                    // skip chain: a may skip b, and b - itself a flag field - may skip c; the option of
+                    // a skipped field must not be evaluated
+                    let (an, bn, cn) = (self.name(), self.name(), self.name());
+                    let (seta, setb) = (*self.r.pick(&[1u64, 2, 0x80]), *self.r.pick(&[1u64, 4, 0x40]));
+                    let (va, vb) = (self.r.byte(), self.r.byte());
+                    let a_skips_b = va as u64 & seta == 0;
+                    let fa = OptFn::SkipIf(bn.clone(), seta, 0); let fb = OptFn::SkipIf(cn.clone(), setb, 0);
+                    tf.push((an.clone(), Sh::Dyn(Box::new(Sh::U8(0)), fa.clone()))); vf.push((an, Sh::Dyn(Box::new(Sh::U8(va)), fa))); len += 1;
+                    let tb = Sh::Dyn(Box::new(Sh::U8(0)), fb.clone());
+                    let (tc, vc, lc) = self.int();
+                    if a_skips_b {
+                        // b keeps its template; c is always present
+                        tf.push((bn.clone(), tb.clone())); vf.push((bn, tb));
+                        tf.push((cn.clone(), tc)); vf.push((cn, vc)); len += lc;
+                    } else {
+                        tf.push((bn.clone(), tb)); vf.push((bn, Sh::Dyn(Box::new(Sh::U8(vb)), fb))); len += 1;
+                        let b_skips_c = vb as u64 & setb == 0;
+                        if b_skips_c { tf.push((cn.clone(), tc.clone())); vf.push((cn, tc)); } else { tf.push((cn.clone(), tc)); vf.push((cn, vc)); len += lc; }
+                    }
                 }
                 _ => {
                     // size taken from a sub-field of a header component
@@ -194,7 +215,7 @@ fn perturb(r: &mut Rng, s: &Sh) -> Sh {
 pub fn generate(thorough: bool, seed: u64, part: (usize, usize), em: &mut Emitter) {
     let mut r = Rng::new(seed ^ 0xC18);
     crate::props::per::generate_roundtrips(thorough, &mut r, part, em);
-    if part.0 == 0 { crate::props::per::generate_hostile(false, &mut r, em); }
+    if part.0 == 0 { crate::props::per::generate_hostile(false, &mut r, em); crate::props::c05::conforming_channel_lists(em); }
     let n = if thorough { 60000 } else { 6000 };
     for _ in 0..n {
         let depth = r.range(0, 3) as u32;
